@@ -269,3 +269,109 @@ Section Refine.
     intros i sl s Hs. apply mix_l_refines; [ exact HM | ].
     apply ark_l_refines. apply exp5state_l_refines. exact Hs.
   Qed.
+
+  Lemma sparse_round_l_refines : forall i st_l st, Forall2 R st_l st ->
+    Forall2 R (sparse_round_l t RF Cl Sl i st_l) (sparse_round q (sbox5 q) t RF C S i st).
+  Proof.
+    intros i st_l st H. unfold sparse_round_l, sparse_round.
+    destruct H as [ | x y rl r Hxy Hr ]; [ constructor | ].
+    cbv zeta.
+    assert (H0 : R (addGeneric (exp5_l x) (nthe Cl ((RF / 2 + 1) * t + i)))
+                   ((sbox5 q y + nthz C ((RF / 2 + 1) * t + i)) mod q)).
+    { apply R_add_t; [ apply R_exp5; exact Hxy | apply Rt_nthe; exact HC ]. }
+    constructor.
+    - apply (fold_combine_refines R
+               (fun acc jx => addGeneric acc (mulGeneric (nthe Sl ((t * 2 - 1) * i + fst jx)) (snd jx)))
+               (fun acc jx => (acc + (nthz S ((t * 2 - 1) * i + fst jx) * snd jx) mod q) mod q)
+               ltac:(intros accl acc j a b Hacc Hab; cbn [fst snd];
+                     apply R_add; [ exact Hacc | ];
+                     apply R_mul_t_l; [ apply Rt_nthe; exact HS | exact Hab ])
+               (_ :: rl) (_ :: r)); [ | exact R_zero ].
+      constructor; [ exact H0 | exact Hr ].
+    - apply (Forall2_map_combine R
+               (fun kx => addGeneric (snd kx)
+                            (mulGeneric (addGeneric (exp5_l x) (nthe Cl ((RF / 2 + 1) * t + i)))
+                                        (nthe Sl ((t * 2 - 1) * i + t + fst kx - 1))))
+               (fun kx => (snd kx + ((sbox5 q y + nthz C ((RF / 2 + 1) * t + i)) mod q
+                                     * nthz S ((t * 2 - 1) * i + t + fst kx - 1)) mod q) mod q));
+        [ | exact Hr ].
+      intros k a b Hab. cbn [fst snd].
+      apply R_add; [ exact Hab | ].
+      apply R_mul_t_r; [ exact H0 | apply Rt_nthe; exact HS ].
+  Qed.
+
+  Theorem perm_opt_limbs_refines : forall st_l st, Forall2 R st_l st ->
+    Forall2 R (perm_opt_limbs t RF RP Cl Sl Ml Pl st_l)
+              (perm_opt q (sbox5 q) t RF RP C S M P st).
+  Proof.
+    intros st_l st H. unfold perm_opt_limbs, perm_opt. cbv zeta.
+    apply mix_l_refines; [ exact HM | ].
+    apply exp5state_l_refines.
+    apply last_full_l_refines.
+    apply (fold_rounds_refines
+             (fun s i => sparse_round_l t RF Cl Sl i s)
+             (fun s i => sparse_round q (sbox5 q) t RF C S i s)).
+    { intros i sl s Hs. apply sparse_round_l_refines. exact Hs. }
+    apply mix_l_refines; [ exact HP | ].
+    apply ark_l_refines. apply exp5state_l_refines.
+    apply first_full_l_refines.
+    apply ark_l_refines. exact H.
+  Qed.
+End Refine.
+Print Assumptions perm_opt_limbs_refines.
+
+(* ------------------------------------------------------------------ *)
+(** * The tables of the package init and the top-level function *)
+
+Lemma Forall2_Rt_map : forall l, Forall2 Rt (map setBigInt l) l.
+Proof.
+  intros l. induction l as [ | v l IH ]; cbn [map]; constructor;
+    [ apply Rt_setBigInt | exact IH ].
+Qed.
+
+Lemma Forall2_Rt_map2 : forall m, Forall2 (Forall2 Rt) (map (map setBigInt) m) m.
+Proof.
+  intros m. induction m as [ | r m IH ]; cbn [map]; constructor;
+    [ apply Forall2_Rt_map | exact IH ].
+Qed.
+
+Lemma Forall2_R_inputs : forall l,
+  CheckBigIntArrayInField q l = true -> Forall2 R (map setBigInt l) l.
+Proof.
+  intros l. unfold CheckBigIntArrayInField.
+  induction l as [ | v l IH ]; cbn [forallb map]; intros H.
+  - constructor.
+  - apply andb_prop in H. destruct H as [Hv Hl]. constructor; [ | apply IH; exact Hl ].
+    apply R_setBigInt_small. unfold CheckBigIntInField in Hv.
+    apply andb_prop in Hv. destruct Hv as [H1 H2].
+    apply Z.ltb_lt in H1. apply negb_true_iff in H2. apply Z.ltb_ge in H2. lia.
+Qed.
+
+Lemma genQ_eq : Gen.CurveConsts.Q = q.
+Proof. reflexivity. Qed.
+
+Theorem HashWithStateEx_limbs_correct : forall NROUNDSF tables inp cap nOuts,
+  HashWithStateEx_limbs NROUNDSF (map ltable_of tables) inp cap nOuts =
+  HashWithStateEx q NROUNDSF tables inp cap nOuts.
+Proof.
+  intros NROUNDSF tables inp cap nOuts.
+  unfold HashWithStateEx_limbs, HashWithStateEx. cbv zeta.
+  rewrite genQ_eq. rewrite map_length.
+  destruct (Nat.eqb (length inp) 0 || Nat.ltb (length tables) (length inp)); [ reflexivity | ].
+  destruct (CheckBigIntArrayInField q inp) eqn:Einp; cbn [negb]; [ | reflexivity ].
+  destruct ((nOuts <? 1) || (Z.of_nat (S (length inp)) <? nOuts)); [ reflexivity | ].
+  rewrite nth_error_map.
+  destruct (nth_error tables (S (length inp) - 2)) as [ tb | ]; cbn [option_map]; [ | reflexivity ].
+  destruct tb as [[[[RP C] S_] M] P]. cbn [ltable_of].
+  destruct (CheckBigIntInField q cap) eqn:Ecap; cbn [negb]; [ | reflexivity ].
+  f_equal. apply map_toBigIntRegular. apply Forall2_firstn.
+  apply perm_opt_limbs_refines.
+  - apply Forall2_Rt_map.
+  - apply Forall2_Rt_map.
+  - apply Forall2_Rt_map2.
+  - apply Forall2_Rt_map2.
+  - change (setBigInt cap :: BigIntArrayToElementArray inp) with (map setBigInt (cap :: inp)).
+    apply Forall2_R_inputs. unfold CheckBigIntArrayInField. cbn [forallb].
+    rewrite Ecap. exact Einp.
+Qed.
+Print Assumptions HashWithStateEx_limbs_correct.
